@@ -65,8 +65,9 @@ func Run(r *vf.Run) {
 	perProg := r.Pick(4, 12)
 	for pi := range progs {
 		specs = append(specs, spec{pi, "serial", 1, 0, 1}) // reference
+		specs = append(specs, spec{pi, "serial+inst", 1, 0, 1})
 		for k := 0; k < perProg; k++ {
-			mode := []string{"parallel", "parallel", "twice", "concurrent-build", "per-package-racing-methodvalue"}[k%5]
+			mode := []string{"per-package-racing-methodvalue+inst", "parallel", "per-package-racing-methodvalue", "twice", "parallel+inst", "concurrent-build", "per-package-racing-methodvalue+inst", "twice+inst"}[k%8]
 			specs = append(specs, spec{pi, mode, []int{1, 2, 4, 16}[rng.IntN(4)], 1 + rng.IntN(1<<20), r.Pick(2, 4)})
 		}
 	}
@@ -93,7 +94,12 @@ func Run(r *vf.Run) {
 			hookLog := filepath.Join(r.Scratch(), fmt.Sprintf("hook-%d.log", i))
 			env := []string{"GORACE=halt_on_error=0 log_path=" + racePrefix, "VERIF_HOOK_LOG=" + hookLog}
 			if s.hookSeed != 0 {
-				env = append(env, fmt.Sprintf("VERIF_HOOKS=%d:200:300", s.hookSeed))
+				if strings.HasPrefix(s.mode, "per-package") {
+					// longer stalls: a builder must be able to finish while another is still busy
+					env = append(env, fmt.Sprintf("VERIF_HOOKS=%d:300:1500", s.hookSeed))
+				} else {
+					env = append(env, fmt.Sprintf("VERIF_HOOKS=%d:200:300", s.hookSeed))
+				}
 			}
 			args := append([]string{"C18child", p.dir, s.mode, strconv.Itoa(s.procs), strconv.Itoa(s.builds)}, p.patterns...)
 			run := lintrun.Cmd{Bin: bin, Dir: p.dir, Env: env, Args: args, Watchdog: 1800}.Run()
@@ -138,10 +144,14 @@ func Run(r *vf.Run) {
 	refs := map[int]*out{}
 	for i := range outs {
 		if outs[i].s.mode == "serial" {
-			refs[outs[i].s.prog] = &outs[i]
+			refs[2*outs[i].s.prog] = &outs[i]
+		}
+		if outs[i].s.mode == "serial+inst" {
+			refs[2*outs[i].s.prog+1] = &outs[i]
 		}
 	}
 	evals, builds, fnsCompared, raceBlocks := 0, 0, 0, 0
+	reachChecks, reachFuncs := 0, 0
 	scheds := map[string]bool{}
 	hooks := map[string]int{}
 	sharedSeen, instSeen := 0, 0
@@ -206,7 +216,17 @@ func Run(r *vf.Run) {
 			d["function"] = k
 			r.Violation("ir-differs-between-builds:"+o.s.mode, fmt.Sprintf("%s %s: repeated build produced different IR for %s", name, o.s.mode, k), d)
 		}
-		ref := refs[o.s.prog]
+		for _, k := range uniq(o.res.Early) {
+			d := desc
+			d["function"] = k
+			r.Violation("returned-before-shared-function-built", fmt.Sprintf("%s %s: Package.Build or MethodValue returned while %s, reachable from what it returned, had no body yet (it got one later)", name, o.s.mode, k), d)
+		}
+		reachChecks += o.res.ReachChecks
+		reachFuncs += o.res.ReachFuncs
+		ref := refs[2*o.s.prog]
+		if strings.HasSuffix(o.s.mode, "+inst") {
+			ref = refs[2*o.s.prog+1]
+		}
 		if ref == nil || ref == o || ref.res.Funcs == nil {
 			continue
 		}
@@ -239,16 +259,21 @@ func Run(r *vf.Run) {
 	r.Set("distinct_hook_orderings", len(scheds))
 	r.Set("hook_points_hit", hooks)
 	r.Set("race_report_blocks", raceBlocks)
+	r.Set("completeness_checks_at_return_of_Build_or_MethodValue", reachChecks)
+	r.Set("functions_visited_by_completeness_checks", reachFuncs)
 	r.Set("max_shared_functions_in_a_program", sharedSeen)
 	r.Set("max_generic_instances_in_a_program", instSeen)
 	r.Set("programs", len(progs))
 	r.Sample(map[string]any{"example_generated_package": program(r.Rand("program", 0), 3)["top0/top.go"]}, 1)
+	if reachChecks == 0 {
+		r.Inconclusive("no completeness check ran")
+	}
 	if hooks["ir.buildFunction"] == 0 {
 		r.Inconclusive("IR hook points never reached")
 	}
 	r.Assume("function identity = Function.String() plus its Synthetic tag; dumps are compared after renaming registers in order of first appearance (value numbering is not part of the property)")
 	r.Finish(evals, len(scheds), r.Pick(8, 40),
-		"each child process (race-instrumented) loads one multi-package program (generated: cross-package generic instances, promoted-method wrappers through value and pointer embedding, bound-method closures, method-expression thunks, embedded-interface wrappers shared by 3-6 packages; plus slices of std and the repository) and builds fresh Programs serially / in parallel / twice / from 8 goroutines / per package while other goroutines call MethodValue, under GOMAXPROCS 1..16 and seeded yields at the builder's hook points; WriteFunction dumps are compared with the serial build. distinct_nontrivial = distinct orders of builder hook events observed")
+		"each child process (race-instrumented) loads one multi-package program (generated: cross-package generic instances, promoted-method wrappers through value and pointer embedding, bound-method closures, method-expression thunks, embedded-interface wrappers shared by 3-6 packages; plus slices of std and the repository) and builds fresh Programs (with and without InstantiateGenerics) serially / in parallel / twice / from 8 goroutines / per package (slowest package first) while other goroutines call MethodValue; when a Package.Build or MethodValue call returns, everything reachable from what it returned through the package's own and through shared functions must already have a body; under GOMAXPROCS 1..16 and seeded yields at the builder's hook points; WriteFunction dumps are compared with the serial build. distinct_nontrivial = distinct orders of builder hook events observed")
 }
 
 func uniq(s []string) []string {
